@@ -24,7 +24,7 @@ let trap_name = function
   | TrapPopEmpty -> "PopEmpty" | TrapPos -> "Pos" | TrapIndex -> "Index" | TrapNoSpace -> "NoSpace"
   | TrapInvalidKey -> "InvalidKey" | TrapListEmpty -> "ListEmpty" | TrapNilNode -> "NilNode"
   | TrapCapOverflow -> "CapOverflow" | TrapOverflow -> "Overflow" | TrapCompact -> "Compact"
-  | TrapMem -> "Mem" | TrapFuel -> "Fuel" | TrapUnpack -> "Unpack"
+  | TrapMem -> "Mem" | TrapFuel -> "Fuel" | TrapUnpack -> "Unpack" | TrapOOM -> "OOM"
 
 let dumpmode = ref 0
 let hm_mod = 2147483647
@@ -56,6 +56,9 @@ let spans : z list ref = ref []
 let khash () = if !kind = 5 then tok_hash_weak else tok_hash
 let alloc_limit = ref 0
 let alloc_ok (n : nat) : bool = !alloc_limit = 0 || int_of_nat n < !alloc_limit
+(* a request for n elements of esize bytes; a reallocation to the current size or to 0 is never refused *)
+let alloc_ok_e (esize : int) (cur : int) (n : nat) : bool =
+  let k = int_of_nat n in !alloc_limit = 0 || k = 0 || k = cur || k * esize < !alloc_limit
 
 let cop_of op a b c : z cop option =
   let za = z_of_i64 a and zb = z_of_i64 b in
@@ -121,6 +124,7 @@ let sbbytes (t : int) (n : int) : z list =
       z_of_int (m + 1))
 
 let emod a b = ((a mod b) + b) mod b
+let bytes_of_string (t : string) : z list = List.init (String.length t) (fun i -> z_of_int (Char.code t.[i]))
 
 let () =
   iter_lines (fun line ->
@@ -137,33 +141,37 @@ let () =
             vecs := vec_empty; vspec := []; seqs := seq_empty; sspec := (z0, []);
             hms := hm_empty; hspec := []; dls := dl_empty; lspec := []; sbs := sb_empty; bspec := [];
             spans := (if !kind = 7 then List.init (Int64.to_int c) (fun i -> z_of_int (i + 1)) else []);
-            alloc_limit := (if !kind = 9 || !kind = 10 then Int64.to_int c else 0);
+            alloc_limit := (if !kind >= 9 && !kind <= 13 then Int64.to_int c else 0);
             Some (Printf.sprintf "H %d %d" !kind !typ)
           end else
           match !kind with
+          | 1 | 10 when op = 16 -> Some ("c2" ^ vec_line () ^ " || c2" ^ vspec_line ())
+          | 2 | 11 when op = 16 -> Some ("c2" ^ seq_line () ^ " || c2" ^ sspec_line ())
+          | 3 | 13 when op = 12 -> Some ("c2" ^ dl_line () ^ " || c2" ^ lspec_line ())
           | 1 | 10 ->
             (match cop_of op a b c with
              | None -> Some "?"
              | Some o ->
-               let m = (match vec_step z0 tok_eqb o !vecs with
+               let m = (match (if !kind = 10 then vec_step_a z0 tok_eqb (alloc_ok_e 8 (-1)) o !vecs else vec_step z0 tok_eqb o !vecs) with
                    | Ok (v, r) -> vecs := v; cret_s r ^ vec_line ()
                    | Trap t -> "TRAP " ^ trap_name t) in
                let s = (match lst_step z0 tok_eqb o !vspec with
                    | Ok (l, r) -> vspec := l; cret_s r ^ vspec_line ()
                    | Trap t -> "TRAP " ^ trap_name t) in
                Some (m ^ " || " ^ s))
-          | 2 ->
+          | 2 | 11 ->
             (match cop_of op a b c with
              | None -> Some "?"
              | Some o ->
-               let m = (match seq_step z0 tok_eqb o !seqs with
+               let m = (match (if !kind = 11 then seq_step_a z0 tok_eqb (!alloc_limit = 0 || 24 < !alloc_limit) (alloc_ok_e 8 (-1)) o !seqs
+                               else seq_step z0 tok_eqb o !seqs) with
                    | Ok (v, r) -> seqs := v; cret_s r ^ seq_line ()
                    | Trap t -> "TRAP " ^ trap_name t) in
                let s = (match sq_step z0 tok_eqb o !sspec with
                    | Ok (l, r) -> sspec := l; cret_s r ^ sspec_line ()
                    | Trap t -> "TRAP " ^ trap_name t) in
                Some (m ^ " || " ^ s))
-          | 3 ->
+          | 3 | 13 ->
             let za = z_of_i64 a and zb = z_of_i64 b in
             let o = (match op with
                 | 1 -> Some (LPushFront za) | 2 -> Some (LPushBack za) | 3 -> Some LPopFront | 4 -> Some LPopBack
@@ -172,14 +180,14 @@ let () =
             (match o with
              | None -> Some "?"
              | Some o ->
-               let m = (match dl_step tok_eqb o !dls with
+               let m = (match (if !kind = 13 then dl_step_a tok_eqb (!alloc_limit = 0 || 24 < !alloc_limit) o !dls else dl_step tok_eqb o !dls) with
                    | Ok (v, r) -> dls := v; lret_s r ^ dl_line ()
                    | Trap t -> "TRAP " ^ trap_name t) in
                let s = (match ll_step tok_eqb o !lspec with
                    | Ok (l, r) -> lspec := l; lret_s r ^ lspec_line ()
                    | Trap t -> "TRAP " ^ trap_name t) in
                Some (m ^ " || " ^ s))
-          | 4 | 5 ->
+          | 4 | 5 | 12 ->
             let za = z_of_i64 a and zb = z_of_i64 b in
             let kh = khash () in
             if op = 12 || op = 13 then begin
@@ -224,7 +232,10 @@ let () =
               match o with
               | None -> Some "?"
               | Some o ->
-                let m = (match hm_step z0 z0 tok_eqb kh o !hms with
+                let hstep = (if !kind = 12 then
+                                 hm_step_a z0 z0 tok_eqb kh (alloc_ok_e 32 (int_of_nat (hm_capacity !hms))) (alloc_ok_e 8 (int_of_nat (hm_bucketcount !hms)))
+                             else hm_step z0 z0 tok_eqb kh) in
+                let m = (match hstep o !hms with
                     | Ok (v, r) -> hms := v; hret_s r ^ hm_line ()
                     | Trap t -> "TRAP " ^ trap_name t) in
                 let s = (match al_step z0 tok_eqb o !hspec with
@@ -259,12 +270,17 @@ let () =
                    | Ok (_, sp) -> pre := sn sp | Trap _ -> ());
                   Some (BPrepare (nat_of_int ia))
                 | 10 -> pre := "-"; Some BDestroy
+                | 11 -> Some (BWriteParts [bytes_of_string (Int64.to_string a)])
+                | 12 -> Some (BWriteParts [bytes_of_string (if a <> 0L then "true" else "false")])
+                | 13 -> Some (BWriteParts [bytes_of_string (Int64.to_string a); sbbytes ib (emod ib 41);
+                                           bytes_of_string (if c <> 0L then "true" else "false")])
                 | _ -> None) in
             (match o with
              | None -> Some "?"
              | Some o ->
                let rs r = (match r with
                    | BBytes l -> Printf.sprintf "%d:%s%s" (List.length l) (hexs l) (if l <> [] then ":0" else "")
+                   | BOkN (okb, n) when op >= 11 -> Printf.sprintf "%d,%d" (if okb then 1 else 0) (int_of_nat n)
                    | _ -> !pre) in
                let m = (match sb_step o !sbs with
                    | Ok (v, r) -> sbs := v; rs r ^ sb_line ()
@@ -300,12 +316,17 @@ let () =
                    | Ok (_, spo) -> pre := (match spo with Some n -> sn n | None -> "0") | Trap _ -> ());
                   Some (BPrepare (nat_of_int ia))
                 | 10 -> pre := "-"; Some BDestroy
+                | 11 -> Some (BWriteParts [bytes_of_string (Int64.to_string a)])
+                | 12 -> Some (BWriteParts [bytes_of_string (if a <> 0L then "true" else "false")])
+                | 13 -> Some (BWriteParts [bytes_of_string (Int64.to_string a); sbbytes ib (emod ib 41);
+                                           bytes_of_string (if c <> 0L then "true" else "false")])
                 | _ -> None) in
             (match o with
              | None -> Some "?"
              | Some o ->
                let rs r = (match r, o with
                    | BBytes l, _ -> Printf.sprintf "%d:%s%s" (List.length l) (hexs l) (if l <> [] then ":0" else "")
+                   | BOkN (okb, n), BWriteParts _ -> Printf.sprintf "%d,%d" (if okb then 1 else 0) (int_of_nat n)
                    | BOkN (false, _), _ -> "0,0"
                    | BBool false, (BWriteByte _ | BResize _) -> "0"
                    | _ -> !pre) in
@@ -335,6 +356,13 @@ let () =
              | 6 -> Some (if f_eqb (zbits_of_i64 a) (zbits_of_i64 b) then "1" else "0")
              | 7 -> Some (if rec_eqb (z_of_i64 a) (zbits_of_i64 b) (z_of_i64 a)
                                (zbits_of_i64 (Int64.logxor b Int64.min_int)) then "1" else "0")
+             | 8 -> Some (dec_of_z (hash_array hash_int [z_of_i64 a; z_of_i64 b; z_of_i64 (Int64.add a b)]))
+             | 9 -> Some (dec_of_z (hash_array hash_float [zbits_of_i64 a; zbits_of_i64 b]))
+             | 10 -> Some (dec_of_z (hash_ptr (zbits_of_i64 a) (z_of_int 3)))
+             | 11 -> Some (dec_of_z (hash_ptr (zbits_of_i64 a) (z_of_int 4)))
+             | 12 -> Some (dec_of_z (hash_span_int [z_of_i64 a; z_of_i64 b; z_of_i64 (Int64.logxor a b)]))
+             | 13 -> Some (dec_of_z (hash_union8 (z_of_i64 a)))
+             | 14 -> Some (dec_of_z (hash_array hash_int []))
              | _ -> Some "?")
           | _ -> Some "?"
         with e -> Some ("!exn " ^ Printexc.to_string e)
